@@ -100,6 +100,54 @@ pub fn check_case(case: &MapCase, st: &mut Stats) -> Check {
     Ok(())
 }
 
+/// Parameter frames through the typed stack-trace API: the frames of the result must be the concatenation of the
+/// model's by-params answers (an unresolved frame is kept unchanged).
+pub fn check_typed(case: &MapCase, st: &mut Stats) -> Check {
+    let model = Model::new(&case.file);
+    let u = Universe::from_ast(&case.file, false);
+    let bytes = case.bytes();
+    let pool = name_pool_for(&case.file, &u);
+    let traces = crate::engine::sample_n(&crate::gen::trace::param_trace(&pool, &u.params), case.key ^ 0xc03, 12);
+    let m_params = mapper(&bytes, true)?;
+    let buf = write_cache(&bytes)?;
+    let cache = parse_cache(&buf)?;
+    for t in &traces {
+        let mut want: Vec<(String, String, Option<String>)> = Vec::new();
+        let mut resolved = 0;
+        for f in &t.frames {
+            let p = f.params.as_deref().unwrap_or("");
+            let ans = model.frames_by_params(&f.class, &f.method, p);
+            if ans.is_empty() {
+                want.push((f.class.clone(), f.method.clone(), f.params.clone()));
+            } else {
+                resolved += 1;
+                for a in ans {
+                    want.push((a.class.to_string(), a.method.to_string(), a.params.map(|s| s.to_string())));
+                }
+            }
+        }
+        if resolved >= 1 {
+            st.nontrivial(crate::engine::fnv64(format!("{t:?}").as_bytes()) ^ case.hash());
+        }
+        if t.frames.windows(2).any(|w| w[0].class == w[1].class && w[0].method == w[1].method && w[0].params != w[1].params) {
+            st.class("typed trace: adjacent frames with the same class and method but different parameter strings");
+        }
+        for r in [&m_params as &dyn Retracer, &cache] {
+            st.evaluations += 1;
+            let got = no_panic("remap_stacktrace_typed", || Ok(r.typed(t)))?;
+            let got_frames: Vec<(String, String, Option<String>)> = got.frames.iter().map(|f| (f.class.clone(), f.method.clone(), f.params.clone())).collect();
+            if got_frames != want {
+                return Err(Fail::new(
+                    "typed-params",
+                    format!("{}: typed remapping of parameter frames {:?} gave {:?}, the by-params model gives {:?}", r.name(), t.frames.iter().map(|f| (&f.class, &f.method, &f.params)).collect::<Vec<_>>(), got_frames, want),
+                )
+                .with(serde_json::json!({"impl": r.name(), "trace": t})));
+            }
+        }
+    }
+    Ok(())
+}
+
 pub fn check_corpus(c: &CorpusAstCase, st: &mut Stats) -> Check {
     let Some((bytes, ast)) = load_corpus_ast(c)? else {
         st.class("corpus file not fully classified by the strict recogniser (skipped)");
@@ -142,11 +190,12 @@ pub fn check_corpus(c: &CorpusAstCase, st: &mut Stats) -> Check {
 
 pub fn run(ctx: &Ctx) -> Report {
     let mut rep = Report::new(ID, "exploration", ctx);
-    rep.rule = "Cases: grammar-generated mapping ASTs weighted to overloads, repeated (obf,args,original) triples within and across classes, inline groups, methods with/without ranges, empty argument lists; header/field records never separate two methods with identical usable ranges (by construction). Oracle: by-params reference model from the AST (skip inlined callees = next record is a method with identical usable range; keep first of each triple per class block; last block of a name wins). Checked for the mapper with param index and for the cache on all (class, method, params) triples of the universe incl. unknown/near-miss values. Non-trivial = distinct (case, query) with non-empty model answer, or naming an entry removed by the inline filter / de-duplication.".into();
+    rep.rule = "Cases: grammar-generated mapping ASTs weighted to overloads, repeated (obf,args,original) triples within and across classes, inline groups, methods with/without ranges, empty argument lists; header/field records never separate two methods with identical usable ranges (by construction). Oracle: by-params reference model from the AST (skip inlined callees = next record is a method with identical usable range; keep first of each triple per class block; last block of a name wins). Checked for the mapper with param index and for the cache on all (class, method, params) triples of the universe incl. unknown/near-miss values, through remap_frame and (stage 'typed') through remap_stacktrace_typed with parameter-carrying frames. Non-trivial = distinct (case, query) with non-empty model answer, or naming an entry removed by the inline filter / de-duplication.".into();
     rep.assumptions = vec!["cache buffers are 8-byte aligned".into(), "domain: non-empty names, numbers < 2^32-1".into()];
     let n = ctx.cases(30_000, 1_200_000);
     rep.run_stage("ast", || map_case(&cfg()), n, check_case);
     rep.run_stage("tall", || tall_case(&cfg()), ctx.cases(60, 2_400), check_case);
+    rep.run_stage("typed", || map_case(&cfg()), ctx.cases(6_000, 200_000), check_typed);
     let corpus = corpus_ast_cases(12, 50, 6, ctx);
     rep.run_enum("corpus", &corpus, check_corpus);
     super::scale::run(&mut rep, ctx, "C03");
@@ -159,6 +208,7 @@ pub fn replay(stage: &str, case: &Value) -> Check {
         return super::scale::replay(case);
     }
     match stage {
+        "typed" => check_typed(&serde_json::from_value(case.clone()).map_err(|e| Fail::new("harness-replay", e.to_string()))?, &mut st),
         "ast" | "tall" => check_case(&serde_json::from_value(case.clone()).map_err(|e| Fail::new("harness-replay", e.to_string()))?, &mut st),
         "corpus" => check_corpus(&serde_json::from_value(case.clone()).map_err(|e| Fail::new("harness-replay", e.to_string()))?, &mut st),
         _ => Err(Fail::new("harness-replay", format!("unknown stage {stage}"))),
